@@ -18,6 +18,7 @@ as it does on the real tree.
   T9 return-else   `if c: return X` + rest -> `if c: return X else: rest`
   T10 flatten-else the inverse of T9
   T11 ifexp->stmt  `x = a if c else b` -> if/else statement
+  T12 hoist-arg    first non-trivial argument of a statement-level call moved into a fresh local
   T6 aug-extend    `xs.extend(ys)` statement -> `xs += ys` for a local list initialised with `[]` / a list display
 
 usage: selftest_auto.py [T0 T1 ...] [-p Cnn ...]
@@ -221,6 +222,50 @@ class IfExpToStmt(ast.NodeTransformer):
         return node
 
 
+class HoistArg(ast.NodeTransformer):
+    """T12: hoist the first non-trivial positional/keyword argument of a statement-level call into a fresh local:
+    `f(g(x), y)` -> `arg_1 = g(x); f(arg_1, y)` (statement level only: Expr / Assign / Return of a call)."""
+    def __init__(self):
+        self.n = 0
+
+    def _block(self, stmts):
+        out = []
+        for st in stmts:
+            call = None
+            if isinstance(st, ast.Expr) and isinstance(st.value, ast.Call):
+                call = st.value
+            elif isinstance(st, (ast.Assign, ast.Return)) and isinstance(st.value, ast.Call):
+                call = st.value
+            if call is not None and not any(isinstance(n, (ast.NamedExpr, ast.Yield, ast.Await, ast.Lambda, ast.GeneratorExp)) for n in ast.walk(call)) \
+                    and isinstance(call.func, (ast.Name, ast.Attribute)) and not any(isinstance(a, ast.Starred) for a in call.args):
+                slots = [("a", i) for i in range(len(call.args))] + [("k", i) for i, k in enumerate(call.keywords) if k.arg]
+                for kind, i in slots:
+                    v = call.args[i] if kind == "a" else call.keywords[i].value
+                    if isinstance(v, (ast.Call, ast.BinOp, ast.Subscript, ast.JoinedStr)):
+                        # everything evaluated before it must be side-effect free: earlier args are names/constants/attributes
+                        earlier = call.args[:i] if kind == "a" else call.args + [k.value for k in call.keywords[:i]]
+                        if all(isinstance(e, (ast.Name, ast.Constant, ast.Attribute)) for e in earlier) and \
+                                (isinstance(call.func, ast.Name) or isinstance(call.func.value, (ast.Name, ast.Attribute))):
+                            self.n += 1
+                            name = f"arg_{self.n}"
+                            out.append(ast.copy_location(ast.Assign(targets=[ast.Name(id=name, ctx=ast.Store())], value=v), st))
+                            if kind == "a":
+                                call.args[i] = ast.Name(id=name, ctx=ast.Load())
+                            else:
+                                call.keywords[i].value = ast.Name(id=name, ctx=ast.Load())
+                        break
+            out.append(st)
+        return out
+
+    def generic_visit(self, node):
+        super().generic_visit(node)
+        for field in ("body", "orelse", "finalbody"):
+            v = getattr(node, field, None)
+            if isinstance(v, list) and v and isinstance(v[0], ast.stmt) and not isinstance(node, (ast.Module, ast.ClassDef)):
+                setattr(node, field, self._block(v))
+        return node
+
+
 def alpha_rename(src: str, filename: str) -> str:
     """Rename function-local variables consistently (suffix `_`): names bound in the function scope that are not
     parameters, not global/nonlocal, and not mentioned inside a nested def / lambda / class.  Uses inside
@@ -335,7 +380,7 @@ def transform(name: str, src: str, filename: str) -> str:
     if name == "T1":
         return alpha_rename(src, filename)
     tr = {"T2": SwapElse, "T3": DeMorgan, "T4": IsNotNone, "T5": TempReturn, "T6": AugExtend, "T8": LoopToComp, "T9": ReturnElse,
-          "T10": FlattenElse, "T11": IfExpToStmt}[name]()
+          "T10": FlattenElse, "T11": IfExpToStmt, "T12": HoistArg}[name]()
     tree = tr.visit(ast.parse(src))
     ast.fix_missing_locations(tree)
     return ast.unparse(tree)
@@ -374,7 +419,7 @@ def main() -> int:
     ap.add_argument("-p", nargs="*", default=[])
     ap.add_argument("--keep", action="store_true")
     ns = ap.parse_args()
-    names = ns.transforms or ["T0", "T1", "T2", "T3", "T4", "T5", "T6", "T7", "T8", "T9", "T10", "T11"]
+    names = ns.transforms or ["T0", "T1", "T2", "T3", "T4", "T5", "T6", "T7", "T8", "T9", "T10", "T11", "T12"]
     props = ns.p or PROPS
     bad = 0
     for name in names:
